@@ -79,7 +79,11 @@ type nrec struct {
 
 func runNested(s NScript) (res vt.Result) {
 	if p := vt.Bubble(theT, func() { res = runNestedInBubble(s) }); p != "" {
-		res.Failf("bubble did not end cleanly: %s", p)
+		if stuckInSession(p) {
+			res.Failf("bubble did not end cleanly: %s", p)
+		} else {
+			res.Class("teardown_leftover")
+		}
 	}
 	return res
 }
@@ -197,7 +201,7 @@ func runNestedInBubble(s NScript) (res vt.Result) {
 	}
 	var desc strings.Builder
 	cancelledN := 0
-	check := func(step int) {
+	checkOnce := func(step int, final bool) (retry bool) { // final: see promptGrace
 		mu.Lock()
 		defer mu.Unlock()
 		for _, r := range recs {
@@ -206,7 +210,7 @@ func runNestedInBubble(s NScript) (res vt.Result) {
 					res.Failf("step %d: nested call %d was cancelled at t=%v but has not returned", step, r.k, r.cancelledAt.Format("05.000"))
 					continue
 				}
-				if d := r.innerRetAt.Sub(r.cancelledAt); d > 0 {
+				if d := r.innerRetAt.Sub(r.cancelledAt); d > promptGrace {
 					res.Failf("step %d: nested call %d returned %v after its cancellation", step, r.k, d)
 				}
 				if r.innerErr == nil || !errors.Is(r.innerErr, context.Canceled) {
@@ -217,6 +221,10 @@ func runNestedInBubble(s NScript) (res vt.Result) {
 				// If the relay handler has already answered its own request and the client holds no standalone
 				// stream, no channel to the client is left for the notice: nothing is required then.
 				reachable := r.hold || !s.Link.NoStandalone || s.Link.Kind != wire.Stateful
+				if r.peerStarted && !r.peerFinished && reachable && !final {
+					retry = true
+					continue
+				}
 				if r.peerStarted && !r.peerFinished && reachable {
 					res.Failf("step %d: nested call %d was cancelled on a healthy link but the peer's handler for it is still parked with a live context (link %s)", step, r.k, s.Link)
 				}
@@ -237,6 +245,14 @@ func runNestedInBubble(s NScript) (res vt.Result) {
 			if isDone(r) && (r.outerErr != nil || r.outerText != fmt.Sprintf("relay-%d", r.k)) {
 				res.Failf("step %d: outer call %d returned (%q, %v), want its own answer", step, r.k, r.outerText, r.outerErr)
 			}
+		}
+		return retry
+	}
+	check := func(step int) {
+		if checkOnce(step, false) && len(res.Violations) == 0 {
+			time.Sleep(promptGrace)
+			synctest.Wait()
+			checkOnce(step, true)
 		}
 	}
 	for i, st := range s.Steps {
